@@ -12,7 +12,7 @@ Wrap points (all restored by ``Tracker.uninstall`` / leaving the ``with``):
   ``urllib.request.urlopen(url)`` through the module attribute, so the
   attribute of ``urllib.request`` (as reachable from ``ZConfig.loader``) is
   replaced.  The returned stream is wrapped in a ``StreamProxy``.
-* ``ZConfig.loader.openPackageResource`` -- module global of ``ZConfig.loader``.
+* ``ZConfig.loader.openPackageResource`` -- a module global of that module.
 
 ``Tracker.begin(fault)`` starts a fresh trace for one call; ``fault`` is one
 of ``None``, ``("open-url", j)``, ``("open-pkg", j)`` (the j-th call raises
